@@ -468,6 +468,9 @@ func TestC05(t *testing.T) {
 					rs.longLived.VerifUpdateRingState(readerView(d))
 				}
 				err := applyReal(d, ops[oi], now)
+				// judged before any reader sees the state: a ring client sorts unsorted token lists of the descriptor it is
+				// given in place, and a reader's clone shares its token storage with the replica
+				inv, got := invariant(d), canonDesc(d, now)
 				rs.longLived.VerifUpdateRingState(readerView(d))
 				want, collisions := nd.m.apply(ops[oi], now)
 				rep.Trans(1)
@@ -484,9 +487,11 @@ func TestC05(t *testing.T) {
 					rep.Violate("err:"+histStr(), "merge error "+err.Error()+" after "+histStr(), nil)
 					return
 				}
-				got := canonDesc(d, now)
-				if s := invariant(d); s != "" {
-					rep.Violate("inv:"+histStr(), fmt.Sprintf("after %s: %s (state %s)", histStr(), s, got), map[string]any{"history": histStr()})
+				if inv != "" {
+					rep.Violate("inv:"+histStr(), fmt.Sprintf("after %s: %s (state %s)", histStr(), inv, got), map[string]any{"history": histStr()})
+				}
+				if s := invariant(d); s != "" && inv == "" {
+					rep.Violate("inv2:"+histStr(), fmt.Sprintf("after %s and a reader's update: %s (state %s)", histStr(), s, canonDesc(d, now)), map[string]any{"history": histStr()})
 				}
 				if got != want.canon(now) {
 					rep.Violate("rule:"+histStr(), fmt.Sprintf("after %s: real state %s, reference (LWW + collision rule) %s", histStr(), got, want.canon(now)), map[string]any{"history": histStr()})
